@@ -168,12 +168,30 @@ def coq_make(targets, log, jobs=8, timeout=3000):
     # the lock covers regeneration and the dependency scan; compilation itself runs
     # unlocked so that one long proof build does not serialise every other check
     # (targets of different properties are disjoint apart from Base/, which is stable)
+    # The regenerated kernels (coq/Gen) and the bridge lemmas over them are compiled while
+    # the lock is held, so that a concurrent run against another tree (VERIF_REPO) cannot
+    # swap the generated text between regeneration and compilation.
+    bridge_out = ""
     with BuildLock():
         failed = regenerate_gen(log)
         regen_coqproject()
         sh(["timeout", "600", "make", ".Makefile.d"], cwd=COQ, timeout=660)
-    rc, out = sh(["timeout", str(timeout), "make", f"-j{jobs}"] + targets, cwd=COQ,
-                 timeout=timeout + 60)
+        locked = [t for t in targets if t.startswith("Bridge/") or t.startswith("Gen/")]
+        rc0 = 0
+        if locked:
+            rc0, bridge_out = sh(["timeout", str(timeout), "make", f"-j{jobs}"] + locked, cwd=COQ,
+                                 timeout=timeout + 60)
+    if rc0 != 0:
+        log.append(bridge_out)
+        coq_make.last_translate_failures = failed
+        return False, bridge_out
+    rest = [t for t in targets if t not in locked] if locked else targets
+    if locked and not rest:
+        rc, out = rc0, bridge_out
+    else:
+        rc, out = sh(["timeout", str(timeout), "make", f"-j{jobs}"] + rest, cwd=COQ,
+                     timeout=timeout + 60)
+        out = bridge_out + out
     log.append(out)
     coq_make.last_translate_failures = failed
     return rc == 0, out
